@@ -110,6 +110,42 @@ theorem aget_aupd (d o : Attrs) (k : String) :
       · subst ha; simp [aget_aset_self]
       · simp [ha, aget_aset_ne _ _ _ _ ha]
 
+theorem ahas_true_aget (d : Attrs) (k : String) (h : ahas d k = true) : ∃ v, aget d k = some v := by
+  induction d with
+  | nil => simp [ahas] at h
+  | cons hd t ih =>
+    obtain ⟨a, b⟩ := hd
+    simp only [aget]
+    cases ht : aget t k with
+    | some w => exact ⟨w, rfl⟩
+    | none =>
+      have hf : ahas t k = false := by
+        by_contra hc
+        obtain ⟨v, hv⟩ := ih (by simpa using hc)
+        rw [ht] at hv; cases hv
+      simp only [ahas, List.any_cons, Bool.or_eq_true, beq_iff_eq] at h
+      rcases h with h | h
+      · exact ⟨b, by simp [h]⟩
+      · have : ahas t k = true := h
+        rw [hf] at this; cases this
+
+/-- `if "label" not in conf: conf["label"] = name` -/
+theorem aget_withLabel (name : String) (conf : Attrs) (k : String) :
+    aget (withLabel name conf) k =
+      if k = "label" then some ((aget conf "label").getD name) else aget conf k := by
+  unfold withLabel
+  by_cases hh : ahas conf "label" = true
+  · obtain ⟨v, hv⟩ := ahas_true_aget _ _ hh
+    simp only [hh, if_true]
+    split_ifs with hk
+    · subst hk; simp [hv]
+    · rfl
+  · have hf : ahas conf "label" = false := by simpa using hh
+    simp only [hf, Bool.false_eq_true, if_false]
+    split_ifs with hk
+    · subst hk; simp [aget_aset_self, ahas_false_aget _ _ hf]
+    · exact aget_aset_ne _ _ _ _ (Ne.symm hk)
+
 /-! ### `mapE` -/
 
 theorem mapE_forall₂ {ε β γ : Type} (f : β → Except ε γ) :
@@ -569,8 +605,8 @@ theorem mkNode_inv {node : Option Sect} {ldf : Option (List (HeatRow Rat))} {c :
     (h : mkNode node ldf c = .ok n) :
     n.name = c.name ∧ ∃ ns conf, node = some ns ∧ nodeConf ns c.kind.className c.name = .ok conf ∧
       match ldf with
-      | none => n.attrs = conf
-      | some rows => heatNode rows c.name conf = .ok n.attrs := by
+      | none => n.attrs = withLabel c.name conf
+      | some rows => ∃ conf', heatNode rows c.name conf = .ok conf' ∧ n.attrs = withLabel c.name conf' := by
   cases node with
   | none => simp [mkNode] at h
   | some ns =>
@@ -588,7 +624,7 @@ theorem mkNode_inv {node : Option Sect} {ldf : Option (List (HeatRow Rat))} {c :
         | ok conf' =>
           simp only [mkNode, hconf, hh, Except.ok.injEq] at h
           subst h
-          exact ⟨rfl, ns, conf, rfl, hconf, hh⟩
+          exact ⟨rfl, ns, conf, rfl, hconf, conf', hh, rfl⟩
 
 theorem mkNode_name {node : Option Sect} {ldf : Option (List (HeatRow Rat))} (c : CompIn) (n : DNode)
     (h : mkNode node ldf c = .ok n) : n.name = c.name := (mkNode_inv h).1
@@ -612,8 +648,9 @@ theorem mkCluster_inv {bd : Config} {ldf : Option (List (HeatRow Rat))} {gm : St
           cases h
           exact ⟨rfl, rfl, hns, cs, hcs, hcc⟩
 
-theorem mkScale_inv {gconf : Attrs} {ls : List Rat} {s : DNode} (h : mkScale gconf ls = .ok s) :
-    s.name = "Scale" ∧ ∃ rd, aget gconf "rankdir" = some rd ∧
+theorem mkScale_inv {names : List String} {gconf : Attrs} {ls : List Rat} {s : DNode}
+    (h : mkScale names gconf ls = .ok s) :
+    s.name = freshScale names ∧ ∃ rd, aget gconf "rankdir" = some rd ∧
       aget s.attrs "label" = some (if rd = "TB" ∨ rd = "BT" then "{" ++ (niceFloat (maxOf ls) ++ "W|  |  | 0W") ++ "}"
                                   else niceFloat (maxOf ls) ++ "W|  |  | 0W") := by
   unfold mkScale at h
@@ -631,7 +668,7 @@ theorem diag_inv {sn : String} {comps : List CompIn} {edges : List (String × St
     mapE (mkNode (effConf cfg).node (heat.map prepLoss)) (layout comps group).2 = .ok d.nodes ∧
     (match heat with
      | none => d.scale = none
-     | some hh => ∃ gconf s, (effConf cfg).graph = some gconf ∧ mkScale gconf (heatLosses hh) = .ok s ∧
+     | some hh => ∃ gconf s, (effConf cfg).graph = some gconf ∧ mkScale (comps.map CompIn.name) gconf (heatLosses hh) = .ok s ∧
          d.scale = some s) ∧
     d.edges.map (fun e => (e.src, e.dst)) = edges ∧
     (∀ e ∈ d.edges, (effConf cfg).edge = some e.attrs) ∧
@@ -882,6 +919,130 @@ theorem nice_si_form (f : ℚ) (h1 : (10:ℚ) ^ (-13 : ℤ) ≤ f) (h2 : f < 999
   cases hs : niceSel (expOf f) with
   | none => rcases niceSel_none _ hs with h | h <;> omega
   | some t => exact ⟨t.1, t.2.1, t.2.2, rfl⟩
+
+/-! ### the legend's name is fresh -/
+
+theorem countP_len_lt (names : List String) (s : String) (h : s ∈ names) :
+    names.countP (fun n => decide ((s ++ "_").length ≤ n.length)) + 1
+      ≤ names.countP (fun n => decide (s.length ≤ n.length)) := by
+  have hl : (s ++ "_").length = s.length + 1 := by
+    rw [String.length_append]; rfl
+  induction names with
+  | nil => simp at h
+  | cons a t ih =>
+    simp only [List.countP_cons, hl]
+    rcases List.mem_cons.mp h with rfl | h
+    · have mono : t.countP (fun n => decide (s.length + 1 ≤ n.length)) ≤ t.countP (fun n => decide (s.length ≤ n.length)) := by
+        apply List.countP_mono_left
+        intro x _ hx
+        simp only [decide_eq_true_eq] at hx ⊢
+        omega
+      simp
+      omega
+    · have := ih h
+      simp only [hl] at this
+      by_cases h1 : s.length + 1 ≤ a.length
+      · have h2 : s.length ≤ a.length := by omega
+        simp [h1, h2]; omega
+      · by_cases h2 : s.length ≤ a.length
+        · simp [h1, h2]; omega
+        · simp [h1, h2]; omega
+
+theorem freshFrom_not_mem (names : List String) :
+    ∀ (fuel : ℕ) (s : String), names.countP (fun n => decide (s.length ≤ n.length)) ≤ fuel →
+      freshFrom names fuel s ∉ names
+  | 0, s, h => by
+    unfold freshFrom
+    intro hm
+    have : 0 < names.countP (fun n => decide (s.length ≤ n.length)) :=
+      List.countP_pos_iff.mpr ⟨s, hm, by simp⟩
+    omega
+  | fuel + 1, s, h => by
+    unfold freshFrom
+    split_ifs with hm
+    · exact freshFrom_not_mem names fuel (s ++ "_") (by have := countP_len_lt names s hm; omega)
+    · exact hm
+
+/-- the legend node never has a component's name -/
+theorem freshScale_not_mem (names : List String) : freshScale names ∉ names :=
+  freshFrom_not_mem names names.length "Scale" (List.countP_le_length)
+
+theorem freshScale_of_not_mem (names : List String) (h : "Scale" ∉ names) : freshScale names = "Scale" := by
+  unfold freshScale
+  cases hn : names.length with
+  | zero => rfl
+  | succ k => unfold freshFrom; rw [if_neg h]
+
+/-! ### quoted identifiers are read back as the name -/
+
+theorem dotLex_quote (l : List Char) :
+    (bsOk false l = true → dotLex false (quoteBody l ++ ['"']) = some l) ∧
+    (bsOk true l = true → dotLex true (quoteBody l ++ ['"']) = some ('\\' :: l)) := by
+  induction l with
+  | nil =>
+    constructor
+    · intro _; simp [quoteBody, dotLex]
+    · intro h; simp [bsOk] at h
+  | cons c t ih =>
+    obtain ⟨P, Q⟩ := ih
+    by_cases hq : c = '"'
+    · subst hq
+      constructor
+      · intro h
+        have h' : bsOk false t = true := by simpa [bsOk] using h
+        simp [quoteBody, dotLex, P h']
+      · intro h; simp [bsOk] at h
+    · by_cases hb : c = '\\'
+      · subst hb
+        constructor
+        · intro h
+          have h' : bsOk true t = true := by simpa [bsOk] using h
+          simp [quoteBody, dotLex, Q h']
+        · intro h
+          have h' : bsOk false t = true := by simpa [bsOk] using h
+          simp [quoteBody, dotLex, P h']
+      · constructor
+        · intro h
+          have h' : bsOk false t = true := by simpa [bsOk, hb] using h
+          simp [quoteBody, dotLex, hq, hb, P h']
+        · intro h
+          have h' : bsOk false t = true := by simpa [bsOk, hq] using h
+          simp [quoteBody, dotLex, hq, hb, P h']
+
+/-- Graphviz reads `_q(name)` back as `name`, for every name DOT can express -/
+theorem renderedId_eq (name : String) (h : nameOk name = true) : renderedId name = some name := by
+  unfold renderedId
+  rw [(dotLex_quote name.toList).1 h]
+  simp
+
+theorem bsOk_of_no_backslash (l : List Char) (h : '\\' ∉ l) : bsOk false l = true := by
+  induction l with
+  | nil => rfl
+  | cons c t ih =>
+    have hc : c ≠ '\\' := fun e => h (e ▸ List.mem_cons_self)
+    simp [bsOk, hc, ih (fun e => h (List.mem_cons_of_mem _ e))]
+
+/-! ### clamped mix -/
+
+theorem clamp01_eq (m : ℚ) : clamp01 m = min (max m 0) 1 := by
+  unfold clamp01; simp
+
+theorem clamp01_range (m : ℚ) : 0 ≤ clamp01 m ∧ clamp01 m ≤ 1 := by
+  rw [clamp01_eq]
+  exact ⟨le_min (le_max_right _ _) zero_le_one, min_le_right _ _⟩
+
+theorem clamp01_mono {m m' : ℚ} (h : m ≤ m') : clamp01 m ≤ clamp01 m' := by
+  rw [clamp01_eq, clamp01_eq]
+  exact min_le_min (max_le_max h le_rfl) le_rfl
+
+theorem clamp01_of_range {m : ℚ} (h0 : 0 ≤ m) (h1 : m ≤ 1) : clamp01 m = m := by
+  rw [clamp01_eq, max_eq_left h0, min_eq_left h1]
+
+/-- `_gcolor` never raises -/
+theorem gcolor_ok (m : ℚ) : ∃ col, gcolor m = .ok col := by
+  obtain ⟨h0, h1⟩ := clamp01_range m
+  obtain ⟨c, hc⟩ := gchannels_ok h0 h1
+  exact ⟨hexColor c, by simp [gcolor, hc, Except.map]⟩
 
 end Diagram
 end SysLoss
